@@ -29,6 +29,69 @@ type Flow struct {
 	Branch func(st string, br *ssa.If, succIdx int) (string, bool)
 	// MaxStates bounds the number of states per block (default 4096).
 	MaxStates int
+	// Inline, if set, names the callee whose body should be analysed in place
+	// of a call (same automaton, entered with the caller's state, left with
+	// the states at its returns). Step is still applied to the call
+	// instruction first; a non-nil Step result suppresses inlining.
+	Inline func(call ssa.CallInstruction) *ssa.Function
+
+	inlineMemo  map[string][]string
+	inlineStack map[*ssa.Function]bool
+}
+
+// InlineSamePackage returns an Inline function that follows static calls to
+// functions of root's package that have a body (unexported helpers and methods alike).
+func InlineSamePackage(root *ssa.Function) func(call ssa.CallInstruction) *ssa.Function {
+	pkg := originPkg(root)
+	return func(call ssa.CallInstruction) *ssa.Function {
+		if _, isGo := call.(*ssa.Go); isGo {
+			return nil
+		}
+		callee := call.Common().StaticCallee()
+		if callee == nil || len(callee.Blocks) == 0 || callee == root {
+			return nil
+		}
+		if originPkg(callee) != pkg {
+			return nil
+		}
+		return callee
+	}
+}
+
+// exitStates runs the automaton over callee from the given user state and
+// returns the user states at its returns.
+func (f *Flow) exitStates(callee *ssa.Function, user string) []string {
+	if f.inlineMemo == nil {
+		f.inlineMemo = map[string][]string{}
+		f.inlineStack = map[*ssa.Function]bool{}
+	}
+	key := callee.String() + "\x01" + user
+	if r, ok := f.inlineMemo[key]; ok {
+		return r
+	}
+	if f.inlineStack[callee] || len(f.inlineStack) > 6 {
+		return []string{user}
+	}
+	f.inlineStack[callee] = true
+	defer delete(f.inlineStack, callee)
+	sub := &Flow{Fn: callee, Init: []string{user}, Step: f.Step, StepDefer: f.StepDefer, Branch: f.Branch, MaxStates: f.MaxStates, Inline: f.Inline,
+		inlineMemo: f.inlineMemo, inlineStack: f.inlineStack}
+	res := sub.Run()
+	set := map[string]bool{}
+	for _, ret := range Returns(callee) {
+		if !res.Reachable(ret.Block()) {
+			continue
+		}
+		for _, st := range res.Before(ret) {
+			set[st] = true
+		}
+	}
+	out := keys(set)
+	if len(out) == 0 || res.Blowup {
+		out = []string{user}
+	}
+	f.inlineMemo[key] = out
+	return out
 }
 
 // FlowResult holds the fixpoint.
@@ -172,6 +235,11 @@ func (f *Flow) stepOne(st string, in ssa.Instruction, deferIdx map[*ssa.Defer]in
 				} else if f.Step != nil {
 					r = f.Step(u, d)
 				}
+				if r == nil && f.Inline != nil {
+					if callee := f.Inline(d); callee != nil {
+						r = f.exitStates(callee, u)
+					}
+				}
 				if r == nil {
 					r = []string{u}
 				}
@@ -185,6 +253,13 @@ func (f *Flow) stepOne(st string, in ssa.Instruction, deferIdx map[*ssa.Defer]in
 		return []string{st}
 	}
 	r := f.Step(user, in)
+	if r == nil && f.Inline != nil {
+		if ci, ok := in.(ssa.CallInstruction); ok {
+			if callee := f.Inline(ci); callee != nil {
+				r = f.exitStates(callee, user)
+			}
+		}
+	}
 	if r == nil {
 		return []string{st}
 	}
